@@ -519,6 +519,34 @@ func runSchedDiff(outDir string, seed int64, tier string) {
 			}
 			return api, 2, nil
 		}}
+	// save_offset while the poller is applying messages: the operator moves the read offset (back to re-read, or forward to
+	// skip) while a tick is under way
+	mkSaveOffset := func(back bool) schedScenario {
+		name := "SaveOffset(forward, past the pending messages) || poll(two messages)"
+		if back {
+			name = "SaveOffset(back by two) || poll(two messages)"
+		}
+		return schedScenario{name: name,
+			prepare: func(c *cluster, obs *vnode, round string) (func(n *vnode) error, int, error) {
+				if err := c.proposeData(c.nodes[1], round, map[string][]byte{"one": []byte("a batch")}); err != nil {
+					return nil, 0, err
+				}
+				for _, nd := range c.nodes[1:] {
+					c.pollOnce(nd, 0)
+					c.answerAll(nd)
+				}
+				cur, err := obs.st.inner.LoadOffset()
+				if err != nil {
+					return nil, 0, err
+				}
+				target := uint64(len(c.boardMessages()))
+				if back && cur >= 2 {
+					target = cur - 2
+				}
+				api := func(n *vnode) error { return n.svc.SaveOffset(&dto.StateOffsetDTO{Offset: target}) }
+				return api, 2, nil
+			}}
+	}
 	// the observed node has lost its state and is being re-initialised: the operator submits the airgapped machine's answer to
 	// the reinit operation (a read-modify-write of the stored round) while the poller opens another round
 	mkFinishReinit := func(sameRound, oldFormat bool) schedScenario {
@@ -663,7 +691,7 @@ func runSchedDiff(outDir string, seed int64, tier string) {
 				return nil, 0, fmt.Errorf("the observed node never got a %s operation", step)
 			}}
 	}
-	scs := []schedScenario{lateAnswer, approve, reset, mkFinishReinit(false, false), mkFinishReinit(true, false), mkFinishReinit(true, true),
+	scs := []schedScenario{lateAnswer, approve, reset, mkSaveOffset(true), mkSaveOffset(false), mkFinishReinit(false, false), mkFinishReinit(true, false), mkFinishReinit(true, true),
 		mkMidDKG("state_dkg_commits_await_confirmations"), mkMidDKG("state_dkg_deals_await_confirmations"),
 		mkMidDKG("state_dkg_responses_await_confirmations"), mkMidDKG("state_dkg_master_key_await_confirmations")}
 	for _, sc := range scs {
